@@ -59,7 +59,7 @@ func (a *Adv) ContractProbes() int {
 		if nLeaves > 1 {
 			mk("other-leaf", func(p *types.StorageProof) bool {
 				j := (idx + 1 + uint64(rapid.IntRange(0, int(nLeaves)-2).Draw(t, "otherLeaf"))) % nLeaves
-				leaf, path := ref.FileProof(data, int(j))
+				leaf, path := RefProof(data, fc.FileMerkleRoot, int(j))
 				if leaf == p.Leaf && samePath(path, p.Proof) {
 					return false
 				}
@@ -234,7 +234,7 @@ func (a *Adv) ContractProbes() int {
 			if nLeaves > 1 {
 				mk("other-leaf", func(p *types.V2StorageProof) bool {
 					j := (idx + 1 + uint64(rapid.IntRange(0, int(nLeaves)-2).Draw(t, "otherLeaf2"))) % nLeaves
-					leaf, path := ref.FileProof(data, int(j))
+					leaf, path := RefProof(data, fc.FileMerkleRoot, int(j))
 					if leaf == p.Leaf && samePath(path, p.Proof) {
 						return false
 					}
@@ -278,7 +278,7 @@ func (a *Adv) ContractProbes() int {
 					p.ProofIndex = a.G.C.Store.CI[h].Copy()
 					// an honest proof for the challenge that index would give
 					j := ref.ChallengeIndex(fc.Filesize, p.ProofIndex.ChainIndex.ID, res.Parent.ID)
-					leaf, path := ref.FileProof(data, int(j))
+					leaf, path := RefProof(data, fc.FileMerkleRoot, int(j))
 					p.Leaf, p.Proof = leaf, toHashes(path)
 					return true
 				})
